@@ -71,7 +71,7 @@ Definition faithful_check (B : backend) (C : cfg) (OR : oracles) (ts : list tok)
   match render_doc B C OR ts with
   | Bad e => Bad e
   | Good (doc, _) =>
-      Good (static ts, has_dropped doc,
+      Good (static B C OR ts, has_dropped doc,
             skels_eqb (skel_node (o_nlt OR) doc) (skel_toks (o_nlt OR) B C OR ts),
             (sections_ok [] doc, transitions_ok [] doc, rows_ok doc))
   end.
